@@ -147,6 +147,8 @@ ROUNDTRIP_FEATURES = [
     ('no-elemental', {'types': ['hex'], 'elemental': []}),
     ('constraints', {'types': ['tet'], 'constraints': [['fix', 3], ['load', 1]]}),
     ('rank2-data', {'types': ['tet'], 'nodal': [['T', 1, 0], ['U', 3, 0], ['S', 6, 0]]}),
+    ('key-differs-from-name', {'types': ['tet'], 'nodal_alias': [['K1', 'other', 1], ['K2', 'other', 3]]}),
+    ('overwrite-then-save', {'types': ['hex'], 'nodal': [['T', 1, 0], ['U', 3, 0]], 'overwrite': [['T', 1], ['U', 3]]}),
     # features on which femio is known to fail (see known_findings.d/C05.json)
     ('types-substring:tet+tet2', {'types': ['tet', 'tet2']}),
     ('types-substring:hex+hexprism', {'types': ['hex', 'hexprism']}),
@@ -245,11 +247,13 @@ def gen_keycases(ctx, types):
         add({'kind': 'elem', 'types': [a, b]})
     for _ in range(200 if thorough else 30):
         add({'kind': 'elem', 'types': r.sample(tt, r.randint(3, 6))})
-    for _ in range(200 if thorough else 40):
-        add({'kind': 'attrs', 'names': r.sample(NAME_POOL, r.randint(1, 4))})
-    for _ in range(200 if thorough else 40):
+    for i in range(200 if thorough else 40):
+        add({'kind': 'attrs', 'names': r.sample(NAME_POOL, r.randint(1, 4)),
+             'alias': [None, 'distinct', 'same'][i % 3]})
+    for i in range(200 if thorough else 40):
         names = r.sample(NAME_POOL, r.randint(1, 3))
-        add({'kind': 'eattrs', 'items': [[n, r.sample(tt, r.randint(1, 3))] for n in names]})
+        add({'kind': 'eattrs', 'items': [[n, r.sample(tt, r.randint(1, 3))] for n in names],
+             'alias': [None, 'distinct'][i % 2]})
     # malformed stream: names with '/', empty names
     for _ in range(40 if thorough else 12):
         names = r.sample(BAD_NAMES, 1) + r.sample(NAME_POOL, r.randint(0, 2))
@@ -763,6 +767,7 @@ def main(ctx):
 
     # ---- 5. violations of the property on the implementation (histories)
     n_impl_bad = 0
+    n_impl_unknown = 0          # failing histories that are not listed known findings
     seen_shape = set()
     for hid, i in violating:
         h = by_id[hid]
@@ -774,7 +779,8 @@ def main(ctx):
             ctx._seen_sigs[key] = ctx._seen_sigs.get(key, 0) + 1 if key in ctx._seen_sigs else 1
             continue
         seen_shape.add(key)
-        ctx.violation('impl-violation',
+        n_impl_unknown += 0 if ctx.violation(
+                      'impl-violation',
                       {'source': SOURCES[h['src']][1], 'src': h['src'], 'ops': shrink_ops(h, i),
                        'pool': pool, 'snaps': snaps},
                       'the read parses the source or loads the image of a completely saved data set '
@@ -783,7 +789,7 @@ def main(ctx):
                        'listing_before_read': steps[i - 1]['ls'] if i > 0 else {}},
                       'C05_crash_safe / oracle Model.spec_run on the implementation',
                       found_input=True, signature=sig,
-                      what=f"read after {sig['after']} returned {sig['loaded']}")
+                      what=f"read after {sig['after']} returned {sig['loaded']}") else 1
     ctx.notes['impl_property_failures'] = n_impl_bad
 
     # ---- 6. disagreements model / implementation
@@ -804,6 +810,7 @@ def main(ctx):
 
     # ---- 7. round trips of single objects (exactness)
     n_rt_bad = 0
+    n_key_unknown = 0           # failing round trips / key cases that are not listed known findings
     for rt, r in zip(rts, out['roundtrips']):
         ctx.count('roundtrip:' + rt['feature'].split(':')[0])
         ok = not r.get('build_error') and r.get('exc') is None and not r.get('diff')
@@ -815,13 +822,13 @@ def main(ctx):
             continue
         if not ok:
             n_rt_bad += 1
-            ctx.violation('impl-violation', {'roundtrip': rt},
+            n_key_unknown += 0 if ctx.violation('impl-violation', {'roundtrip': rt},
                           'read_npy_directory(save(d)) reproduces every component exactly',
                           {'exception': r.get('exc'), 'components_that_differ': r.get('diff')},
                           'C05 save/load exactness (round-trip oracle)', found_input=True,
                           signature={'site': 'save/load round trip', 'feature': rt['feature'].split(':')[0],
                                      'outcome': 'raises' if r.get('exc') else 'differs'},
-                          what=f"round trip of an object with feature {rt['feature']}: {r.get('exc') or r.get('diff')}")
+                          what=f"round trip of an object with feature {rt['feature']}: {r.get('exc') or r.get('diff')}") else 1
     ctx.notes['roundtrip_failures'] = n_rt_bad
 
     # ---- 7a. real source directories read twice (parse, then cache)
@@ -843,11 +850,11 @@ def main(ctx):
             else:
                 sig = {'site': 'read_directory twice', 'source': tw['name'],
                        'outcome': 'raises' if 'second_exc' in r else 'differs'}
-            ctx.violation('impl-violation', {'twice': tw},
+            n_key_unknown += 0 if ctx.violation('impl-violation', {'twice': tw},
                           'the second read_directory is served from the cache and returns the same six '
                           'components as the first (parsed) one',
                           r, 'C05_cache_transparent / oracle on real source directories', found_input=True,
-                          signature=sig, what=f"reading {tw['name']} twice: {r.get('second_exc') or r.get('diff')}")
+                          signature=sig, what=f"reading {tw['name']} twice: {r.get('second_exc') or r.get('diff')}") else 1
     ctx.notes['twice_failures'] = n_tw_bad
     ctx.corr['sources_read_twice'] = len(tws)
 
@@ -872,13 +879,13 @@ def main(ctx):
         if key_wellformed(kc) and not kc.get('malformed') and not key_expected_ok(kc, r):
             n_key_bad += 1
             feat = key_feature(kc)
-            ctx.violation('impl-violation', {'keycase': kc},
+            n_key_unknown += 0 if ctx.violation('impl-violation', {'keycase': kc},
                           'from_dict(to_dict(x)) returns the same labels and arrays',
                           {k: r.get(k) for k in ('keys', 'ok', 'exc', 'msg')},
                           'C05_*_dict_roundtrip / oracle on to_dict -> from_dict', found_input=True,
                           signature={'site': 'save/load round trip', 'feature': feat,
                                      'outcome': 'raises' if 'exc' in r else 'differs'},
-                          what=f'to_dict -> from_dict of {kc["kind"]} {kc.get("types") or kc.get("names") or kc.get("items") or kc.get("prefix")}')
+                          what=f'to_dict -> from_dict of {kc["kind"]} {kc.get("types") or kc.get("names") or kc.get("items") or kc.get("prefix")}') else 1
     kdis = []
     if klines:
         txt = list(KHEADER) + ['Definition cases : list (nat * bool) := [',
@@ -909,33 +916,33 @@ def main(ctx):
         ctx.violation('correspondence', {'keycase': kc}, 'case can be built and classified', why,
                       'harness C05 (key cases)', found_input=False,
                       signature={'kind': 'key-harness-error'})
-    if not ktie_ok and n_key_bad == 0 and n_rt_bad == 0:
+    if not ktie_ok and n_key_unknown == 0:
         ctx.violation('tie-broken', {'translator_error': ctx.notes.get('key_translator_error')},
                       'translator accepts to_dict / from_dict / _split_dict_data', 'fail-closed',
                       'translator c05_keys (key_cfg_ok cannot be evaluated)', found_input=False,
                       signature={'kind': 'key-tie-broken'})
-    if ktie_ok and (kcfg_ok is None or not kproof_ok) and n_key_bad == 0 and n_rt_bad == 0:
+    if ktie_ok and (kcfg_ok is None or not kproof_ok) and n_key_unknown == 0:
         bad = [o['name'] for o in ctx.obligations if not o['discharged']]
         ctx.violation('proof-broken', {'undischarged': bad}, 'C05 key-scheme theorems check', 'do not check',
                       ', '.join(bad) or 'key model build', found_input=False,
                       signature={'kind': 'key-proof-broken'})
-    if ktie_ok and kcfg_ok is False and n_key_bad == 0 and n_rt_bad == 0:
+    if ktie_ok and kcfg_ok is False and n_key_unknown == 0:
         ctx.violation('proof-broken', {'model_witnesses': key_witness},
                       'key_cfg_ok kcfg = true', 'false, and no failing input was found on the implementation',
                       'C05_run_key_cfg_rejected', found_input=False,
                       signature={'kind': 'key-cfg-rejected-no-repro'})
 
     # ---- 8. broken tie / proof without a failing input
-    if not tie_ok and n_impl_bad == 0:
+    if not tie_ok and n_impl_unknown == 0:
         ctx.violation('tie-broken', {'translator_error': ctx.notes.get('translator_error')},
                       'translator accepts FEMData.save / read_directory / read_npy_directory', 'fail-closed',
                       'translator c05_effects (cfg_ok cannot be evaluated)', found_input=False,
                       signature={'kind': 'tie-broken'})
-    if tie_ok and (cfg_ok is None or not proof_ok) and n_impl_bad == 0:
+    if tie_ok and (cfg_ok is None or not proof_ok) and n_impl_unknown == 0:
         bad = [o['name'] for o in ctx.obligations if not o['discharged']]
         ctx.violation('proof-broken', {'undischarged': bad}, 'C05 theorems check', 'do not check',
                       ', '.join(bad) or 'model build', found_input=False, signature={'kind': 'proof-broken'})
-    if tie_ok and cfg_ok is False and n_impl_bad == 0:
+    if tie_ok and cfg_ok is False and n_impl_unknown == 0:
         ctx.violation('proof-broken', {'model_witness': witness},
                       'cfg_ok SaveCfg.cfg = true', 'false, and the model witness did not reproduce on the '
                       'implementation within the explored histories',
